@@ -34,7 +34,8 @@ def grids(draw, nmax):
         lo_f, step = draw(st.floats(5, 20)), draw(st.floats(2, 8))
         return kind, [S.sig(lo_f + k * step, 6) for k in range(n)]
     lo = 10 ** draw(st.floats(1, 3.5))
-    decades = draw(st.floats(0.3, 2.0))
+    # up to the full quantified range 10 A .. 10 um (long, wide grids make the Hankel matrix large)
+    decades = draw(st.one_of(st.floats(0.3, 2.0), st.floats(2.0, 4.0)))
     hi = min(lo * 10 ** decades, 1e5)
     if kind == "single":
         return kind, [S.sig(lo, 5)]
@@ -193,5 +194,12 @@ def plan(tier):
 
 def run_shard(ctx, spec):
     quick = ctx.tier == "quick"
-    ctx.explore("sesans", cases(40 if quick else 200), 100 if quick else 1000, shrink_examples=15)
+    if spec["k"] < 4:
+        # the corners of the quantified range: 200 points over the full 10 A .. 10 um, log and linear
+        n, lam = 200, [5.0, 8.37][spec["k"] % 2]
+        xi = (np.logspace(1, 5, n) if spec["k"] < 2 else np.linspace(10.0, 1e5, n))
+        ctx.run_case("sesans", {"grid": "log" if spec["k"] < 2 else "linear", "xi": [S.sig(v, 7) for v in xi],
+                                "xi_int": False, "lam": lam, "theta": math.pi / 2 if spec["k"] % 2 == 0 else 0.02,
+                                "gauss": [{"pos": 0.3, "amp": 1.0}, {"pos": 0.7, "amp": 2.5}], "a": 1.5, "b": -0.5})
+    ctx.explore("sesans", cases(60 if quick else 200), 100 if quick else 1000, shrink_examples=15)
     ctx.explore("gxi", gxi_cases(), 12 if quick else 100, shrink_examples=8)
